@@ -276,6 +276,63 @@ def ob_epilogue(ctx, POST):
                          ('error-line_num', value_eq(a[1].line_num, b[1].line_num))], witness=wit)
 
 
+# hunk bodies with known geometry (markers: ' ' context, '-' delete, '+' insert, 'M' no-newline marker)
+BODIES = [
+    [' ', '-', '+', ' '], ['-', '+'], [' ', ' ', '+'], ['+', ' ', '-', ' ', ' '], ['-', 'M', '+', 'M'], [' ', ' ', ' '],
+    ['-', ' ', ' ', '+'], [' ', '-', '-', ' ', '+', ' ', ' '],
+]
+
+
+def ob_shapes(ctx, H, bodies):
+    """sequences of 1..H well-formed hunks from a catalogue of bodies with different leading/trailing context,
+    symbolic start lines and payloads, optional garbage between hunks: real function vs REF_HUNK"""
+    UD, MalformedHunkError, RH = _mods()
+    nh = ctx.choose(1, H, 'hunks')
+    ig = bool(ctx.choose(0, 1, 'ignore_garbage'))
+    lines = []
+    for h in range(nh):
+        body = ctx.pick('body%d' % h, bodies)
+        o = sum(1 for m in body if m in ' -')
+        n = sum(1 for m in body if m in ' +')
+        if ig and ctx.choose(0, 1, 'garbage%d' % h):
+            g = sym_bytes(ctx, 'g%d' % h, 2)
+            ctx.assume(g.el[0] != 64)
+            lines.append(g)
+        start = _digits(ctx, 's%d' % h, ctx.choose(1, 2, 'startlen%d' % h))
+        hdr = b'@@ -' + start + (b',%d' % o if (o != 1 or ctx.choose(0, 1, 'oc%d' % h)) else b'') + b' +' + start + \
+            (b',%d' % n if (n != 1 or ctx.choose(0, 1, 'nc%d' % h)) else b'') + b' @@'
+        lines.append(hdr)
+        for k, m in enumerate(body):
+            if m == 'M':
+                lines.append(MARKER)
+            else:
+                lines.append(m.encode() + sym_bytes(ctx, 'p%d_%d' % (h, k), 1))
+    damage = ctx.pick('damage', ['none', 'none', 'drop-last-line', 'header-inside'])
+    if damage == 'drop-last-line':
+        lines = lines[:-1]
+    elif damage == 'header-inside' and len(lines) > 2:
+        lines.insert(2, b'@@ -1 +1 @@')
+    wit = lambda m: {'lines': [model_bytes(m, l) for l in lines], 'ignore_garbage': ig}
+    a = _outcome(lambda: UD.get_unified_diff_hunks(list(lines), ignore_garbage=ig), MalformedHunkError)
+    if a[0] == 'exc':
+        return viol('raised:%s' % type(a[1]).__name__, wit(ctx.model()))
+    try:
+        b = _outcome(lambda: RH.hunks(list(lines), ig), RH.Malformed)
+    except RH.Unspecified:
+        return verdict(ctx, [('exception-type', True)], witness=wit)
+    if b[0] == 'exc':
+        if isinstance(b[1], RH.Unspecified):
+            return verdict(ctx, [('exception-type', True)], witness=wit)
+        raise b[1]
+    if a[0] != b[0]:
+        return viol('outcome:%s-vs-ref-%s' % (a[0], b[0]), wit(ctx.model()))
+    if a[0] == 'ok':
+        props = [('result', value_eq(a[1], b[1]))]
+    else:
+        props = [('error-line', value_eq(a[1].line, b[1].line)), ('error-line_num', value_eq(a[1].line_num, b[1].line_num))]
+    return verdict(ctx, props, witness=wit, sample=lambda m: dict(wit(m), outcome=a[0]))
+
+
 def _extract():
     from sx.extract import ExtractError, loop_step, surround
     UD, _, _ = _mods()
@@ -290,6 +347,16 @@ def _extract():
             'hunk_orig_i', 'hunk_modified_i', 'line_num', 'line', 'ignore_garbage'}
     if not need <= set(info['names']):
         return None, None, 'state variables renamed: missing %s' % sorted(need - set(info['names']))
+    # variables initialised before the loop are loop-carried state; the invariant only describes the known ones
+    import ast as _ast
+    carried = set()
+    for stmt in info['pre']:
+        for node in _ast.walk(_ast.parse(stmt)):
+            if isinstance(node, _ast.Name) and isinstance(node.ctx, _ast.Store):
+                carried.add(node.id)
+    extra = carried - need - {'lines'}
+    if extra:
+        return None, None, 'new loop-carried state %s is not described by Inv_h' % sorted(extra)
     return step, post, None
 
 
@@ -297,12 +364,19 @@ def obligations(tier):
     quick = tier == 'quick'
     obs = []
     L = 2 if quick else 3
-    obs.append(Ob('whole[L<=%d]' % L, ob_whole, dict(Lmax=L, rich=True),
+    obs.append(Ob('whole[L<=%d]' % L, ob_whole, dict(Lmax=L, rich=not quick),
                   must_reach=['unified_diffs:get_unified_diff_hunks'],
                   desc='real get_unified_diff_hunks vs REF_HUNK on 0..%d symbolic template lines, both '
                        'ignore_garbage values (includes the empty list)' % L,
                   bounds={'lines': [0, L], 'templates': 'header(1-2 digit starts, optional 1-digit counts, optional '
                           'context/LF), free bytes 0..3, marker +-1 byte, "@@"+2 bytes'}))
+    H = 2 if quick else 3
+    obs.append(Ob('hunk-sequences[H<=%d]' % H, ob_shapes, dict(H=H, bodies=BODIES[:5] if quick else BODIES),
+                  must_reach=['unified_diffs:get_unified_diff_hunks'], path_timeout=40,
+                  desc='real get_unified_diff_hunks vs REF_HUNK on sequences of 1..%d well-formed hunks from a catalogue '
+                       'of bodies with different context (symbolic start lines and payload bytes, optional garbage, '
+                       'omitted counts), intact or with single-point damage' % H,
+                  bounds={'hunks': [1, H], 'bodies': 5 if quick else len(BODIES)}))
     step, post, why = _extract()
     if step is None:
         obs.append(('skipped', 'step[arbitrary-state]', why))
@@ -380,7 +454,7 @@ def replay(ob, label, w):
     from pydiffx.utils.unified_diffs import get_unified_diff_hunks
     from pydiffx.errors import MalformedHunkError
     import ref.hunks as RH
-    if ob.startswith('whole'):
+    if ob.startswith('whole') or ob.startswith('hunk-sequences'):
         lines, ig = w['lines'], w['ignore_garbage']
         try:
             a = ('ok', get_unified_diff_hunks(list(lines), ignore_garbage=ig))
